@@ -27,6 +27,7 @@ Proof.
         destruct (3 <=? nth 10 b 0); [intros; inv_step; np|].
         destruct (nth 10 b 0 =? 1); [|intros; inv_step; np].
         destruct (negb (c_allow_v2 cfg)); [intros; inv_step; np|].
+        destruct (c_sec_enabled cfg); [intros; inv_step; np|].
         destruct (length b <? 12)%nat; [discriminate|].
         destruct (negb (v2_compat _ _)); [intros; inv_step; np|].
         destruct (stype_code _); intros; inv_step; np.
@@ -124,6 +125,7 @@ Proof.
         destruct (3 <=? nth 10 b 0); [intros; inv_step; cbn in *; discriminate|].
         destruct (nth 10 b 0 =? 1); [|intros; inv_step; cbn in *; discriminate].
         destruct (negb (c_allow_v2 cfg)); [intros; inv_step; cbn in *; discriminate|].
+        destruct (c_sec_enabled cfg); [intros; inv_step; cbn in *; discriminate|].
         destruct (length b <? 12)%nat; [discriminate|].
         destruct (negb (v2_compat _ _)); [intros; inv_step; cbn in *; discriminate|].
         destruct (stype_code _); intros; inv_step; cbn in *; discriminate.
@@ -190,6 +192,7 @@ Proof.
         destruct (3 <=? nth 10 r 0); [discriminate|].
         destruct (nth 10 r 0 =? 1); [|discriminate].
         destruct (negb (c_allow_v2 cfg)); [discriminate|].
+        destruct (c_sec_enabled cfg); [discriminate|].
         destruct (length r <? 12)%nat eqn:E12; [lia|].
         destruct (negb (v2_compat _ _)); [discriminate|]. destruct (stype_code _); discriminate.
   - destruct (m_produce cfg (e_mech st)) as [m' [ | tok | ]]; try discriminate.
